@@ -220,7 +220,51 @@ Definition thread_events (f : fmt) (o : opts) (sc : spancfg) (th : thr) (ops : l
 
 Definition thread_sink_log (c : cfg) (f : fmt) (o : opts) (sc : spancfg) (w : wexp) (th : thr) (ops : list op)
   : list (N * sink_call) :=
-  distribute meta_of w (snd (run_thread c [] (thread_events f o sc th ops))).
+  distribute meta_of w (snd (run_thread no_unwind c [] (thread_events f o sc th ops))).
+
+(** ** The same pipeline over sinks that may fail (fault scripts)
+
+    Every emission reaching [on_event] is numbered in completion order (a nested one before the event whose
+    formatting emitted it); [plans k] is the fault plan of the k-th: one script per recording writer its
+    [make_writer_for] creates, in creation order (= write order, WriterProofs.asked_is_route).  The plan
+    travels with the metadata through the (metadata-polymorphic) buffer model. *)
+Fixpoint label {A M} (plans : nat -> list script) (e : event A M) (k : nat) {struct e} : event A (M * list script) * nat :=
+  match e with
+  | Ev m nested out =>
+      let fix go (l : list (event A M)) (k : nat) : list (event A (M * list script)) * nat :=
+        match l with
+        | [] => ([], k)
+        | x :: t => let (x', k1) := label plans x k in let (t', k2) := go t k1 in (x' :: t', k2)
+        end in
+      let (ns, k') := go nested k in
+      (Ev (m, plans k') ns out, S k')
+  end.
+
+Fixpoint label_all {A M} (plans : nat -> list script) (es : list (event A M)) (k : nat) : list (event A (M * list script)) :=
+  match es with
+  | [] => []
+  | e :: t => let (e', k') := label plans e k in e' :: label_all plans t k'
+  end.
+
+(** [write_all(&mut writer, b)] on the writer [w.make_writer_for(m)] returned, under the record's plan. *)
+Definition fwrite {M} (both : bool) (pm : M -> meta) (w : wexp) (mp : M * list script) (b : bytes)
+  : list (N * list scall) * wres * nat :=
+  tee_apply both (leaf_of MWriteAll b) (fst (make_for w (pm (fst mp)))) (planf (snd mp)) 0%nat.
+
+(** ... unwinds (a sink panicked): the buffer model's [unw] input, computed from the writer algebra. *)
+Definition unw_f {M} (both : bool) (pm : M -> meta) (w : wexp) : M * list script -> bytes -> bool :=
+  fun mp b => match snd (fst (fwrite both pm w mp b)) with WUnwind => true | _ => false end.
+
+Definition distribute_f {M} (both : bool) (pm : M -> meta) (w : wexp) (acts : list (action N (M * list script)))
+  : list (N * fentry) :=
+  flat_map (fun a => match a with
+                     | AMake mp => map (fun i => (i, FMake (pm (fst mp)))) (asked w (pm (fst mp)))
+                     | AWrite mp b => flat_calls (fst (fst (fwrite both pm w mp b)))
+                     end) acts.
+
+Definition sink_log_f {M} (both : bool) (c : cfg) (pm : M -> meta) (w : wexp) (plans : nat -> list script)
+  (es : list (event N M)) : list (N * fentry) :=
+  distribute_f both pm w (snd (run_thread (unw_f both pm w) c [] (label_all plans es 0%nat))).
 
 (** ** Token view of a record (specification side of C13_content) *)
 
